@@ -860,6 +860,20 @@ static void shrink_one(World *w, const std::string &prop, int tier, uint64_t roo
     Json plan = w->generate_indexed(prop, seed, tier, idx);
     Json r1 = exec_plan(x, plan, seed), r2 = exec_plan(x, plan, seed);
     std::string core = core_of(target);
+    if (r1.gets("ed") == r2.gets("ed") && (!has_core(r1, core) || !has_core(r2, core))) {
+        // A memory-unsafe defect can die in another way in this process than in the sweep's worker (the wild read lands
+        // elsewhere under another address-space layout).  If both re-executions here agree on a violation of the same
+        // property, that one is minimised and reported instead; a known finding never takes this route.
+        std::vector<Violation> a = viols_of(r1), b = viols_of(r2);
+        if (!a.empty() && !b.empty() && a[0].cls() == b[0].cls()) {
+            bool listed = false;
+            for (auto &k : load_known())
+                if (known_matches(k, prop, a[0]))
+                    listed = true;
+            if (!listed)
+                core = core_of(a[0]);
+        }
+    }
     if (r1.gets("ed") != r2.gets("ed") || !has_core(r1, core) || !has_core(r2, core)) {
         std::string m = "NONDET run " + std::to_string(idx) + " class " + target.cls() + " digests " + r1.gets("ed") + " / " + r2.gets("ed") + " present " +
             (has_core(r1, core) ? "1" : "0") + (has_core(r2, core) ? "1" : "0") + "\n";
